@@ -15,6 +15,7 @@ KS_Q    == {-2, 0, 1}
 KS_Wide == {-3, -1, 0, 1, 3}
 SK_Wide == {-2, 0, 3, 5, 8}
 I_Few   == << <<1, -3>>, <<5, -3>>, <<2, -2>>, <<3, -4>>, <<8, -2>> >>
+I_FewZ  == << <<1, -3>>, <<5, -3>>, <<2, -2>>, <<3, -4>>, <<8, -2>>, <<0, 0>> >>
 I_Many  == << <<1, -3>>, <<5, -3>>, <<2, -2>>, <<3, -4>>, <<8, -2>>, <<1, -1>>, <<1, -6>>, <<0, 0>>, <<2, 0>> >>
 I_Pos   == << <<1, -3>>, <<5, -3>>, <<2, -2>>, <<3, -4>>, <<8, -2>>, <<1, -1>>, <<1, -5>>, <<7, -1>>, <<4, -4>> >>
 IP_Few  == { <<1, 0>>, <<2, 1>>, <<3, 2>> }
